@@ -625,8 +625,8 @@ func runBoth(p *plan, tier string, base uint64, workers int, scale float64) int 
 	extra.ID = realID
 	extra.EvName = realID + ".part2"
 	c2 := runPart(&extra)
-	f1 := filepath.Join(verifDir, "evidence", realID+".json")
-	f2 := filepath.Join(verifDir, "evidence", extra.EvName+".json")
+	f1 := filepath.Join(outDir, "evidence", realID+".json")
+	f2 := filepath.Join(outDir, "evidence", extra.EvName+".json")
 	mergeEvidence(f1, f2, realID)
 	os.Remove(f2)
 	if c1 == 1 || c2 == 1 {
